@@ -239,7 +239,8 @@ func genC16(c *Ctx) {
 		ohp := hashPoint(other.pk.Encode(), ph)
 		c.Case("pop-other-key", "bls.verify 0x"+other.k.Text(16)+" "+hx(ohp)+" "+hx(pop), guard(func() string { return boolAns(crypto.BLSVerifyPOP(other.pk, pop)) }))
 		// candidate strings
-		for class, cands := range c.candidateSigs(pop, hpop, 4) {
+		for _, cc := range sortedCands(c.candidateSigs(pop, hpop, 4)) {
+				class, cands := cc.class, cc.cands
 			for _, cand := range cands {
 				c.Case("pop-candidate/"+class, "bls.verify "+ks+" "+hx(hpop)+" "+hx(cand), guard(func() string { return boolAns(crypto.BLSVerifyPOP(key.pk, cand)) }))
 			}
